@@ -35,6 +35,11 @@ Fixpoint assoc_code (k : Z) (l : list (Z * list Z)) : option (list Z) :=
 (* reads, as the opcodes BALANCE / SLOAD / EXTCODESIZE.. / TIMESTAMP .. perform them *)
 Definition read_balance (w : mworld) (a : Z) : Z :=
   match assoc (u160 a) (mw_balance w) with Some v => v | None => 0 end.
+(* Exec.balance_of: "practical assumption on the max balance per account" -- a concrete
+   balance above MAX_ETH raises HalmosException *)
+Definition MAX_ETH : Z := 2 ^ 128.
+Definition read_balance_checked (w : mworld) (a : Z) : option Z :=
+  let v := read_balance w a in if v >? MAX_ETH then None else Some v.
 Definition read_storage (w : mworld) (a s : Z) : Z :=
   match assoc2 a s (mw_storage w) with Some v => v | None => 0 end.
 Definition read_code (w : mworld) (a : Z) : option (list Z) := assoc_code a (mw_code w).
